@@ -591,4 +591,99 @@ Section RingProofs.
           unfold fl_of in Hc. eapply fetch_loop_asked in G; [|exact Hc]. congruence.
     Qed.
   End Call.
+
+  (* ---------- the statements of Props/C12.v ---------- *)
+  Lemma thm_verify_jsons_sound : forall now dbf dbs fs reqs rs i r,
+    let o := verify_jsons now dbf dbs fs reqs in
+    o_results o = Some rs -> nth_error reqs i = Some r -> nth_error rs i = Some ROk ->
+    exists kid rec,
+      (exists ids, kids_of (rq_server r) (rq_msg r) = Some ids /\ In kid ids) /\
+      supported kid = true /\
+      vj (rq_server r) kid (pk_key rec) (rq_msg r) = true /\
+      was_valid_at now rec (rq_at r) (rq_rule r) = true /\
+      ((exists kr fromdb, o_dbcall o = Some kr /\ dbf kr = Some fromdb /\ In ((rq_server r, kid), rec) fromdb)
+       \/ (exists c ans, In c (o_calls o) /\ c_answer c = Some ans /\ In ((rq_server r, kid), rec) ans)).
+  Proof.
+    intros now dbf dbs fs reqs rs i r o HR Hr Hi.
+    destruct (sound now dbf dbs fs reqs rs i r HR Hr Hi) as [kid [rec [keys [W O]]]].
+    exists kid, rec. destruct W as [W1 [W2 [W3 [W4 W5]]]]. repeat split; try assumption.
+  Qed.
+
+  Lemma thm_verify_jsons_complete : forall now dbf dbs fs reqs rs i r kid rec,
+    let o := verify_jsons now dbf dbs fs reqs in
+    o_results o = Some rs -> nth_error reqs i = Some r ->
+    (exists ids, kids_of (rq_server r) (rq_msg r) = Some ids /\ In kid ids) -> supported kid = true ->
+    mfind (rq_server r, kid) (o_keys o) = Some rec ->
+    was_valid_at now rec (rq_at r) (rq_rule r) = true ->
+    vj (rq_server r) kid (pk_key rec) (rq_msg r) = true ->
+    nth_error rs i = Some ROk.
+  Proof.
+    intros now dbf dbs fs reqs rs i r kid rec o HR Hr Hk Hs F W V.
+    eapply (complete now dbf dbs fs reqs rs i r kid rec); try eassumption.
+    unfold witness. repeat split; assumption.
+  Qed.
+
+  Lemma thm_database_key_inside_validity_is_used : forall now dbf dbs fs reqs kr fromdb k v,
+    let o := verify_jsons now dbf dbs fs reqs in
+    o_dbcall o = Some kr -> dbf kr = Some fromdb -> NoDup (map fst fromdb) -> In (k, v) fromdb ->
+    (pk_expired v <> 0 \/ as_timestamp now < pk_valid_until v) ->
+    mfind k (o_keys o) = Some v /\ forall c, In c (o_calls o) -> mhas k (c_asked c) = false.
+  Proof.
+    intros now dbf dbs fs reqs kr fromdb k v o HD HF ND Hin Hfin.
+    assert (HK : o_dbcall o = Some (public_key_requests M (map init_slot reqs))).
+    { subst o. destruct (verify_jsons_cases now dbf dbs fs reqs)
+        as [[_ E]|[[_ [_ E]]|[fromdb' [_ [_ [[_ E]|[_ E]]]]]]]; rewrite E in *; simpl in *;
+        try discriminate; reflexivity. }
+    assert (kr = public_key_requests M (map init_slot reqs)) by congruence. subst kr.
+    eapply db_final_kept; eauto.
+    unfold db_final, public_key_not_expired. destruct Hfin as [H|H].
+    - apply orb_true_iff. left. apply negb_true_iff. apply Z.eqb_neq. exact H.
+    - apply orb_true_iff. right. apply Z.ltb_lt. exact H.
+  Qed.
+
+  Lemma thm_fetchers_asked_only_for_missing_or_stale : forall now dbf dbs fs reqs c k,
+    let o := verify_jsons now dbf dbs fs reqs in
+    In c (o_calls o) -> mhas k (c_asked c) = true ->
+    exists kr fromdb, o_dbcall o = Some kr /\ dbf kr = Some fromdb /\ mhas k kr = true /\
+      forall v, In (k, v) fromdb -> pk_expired v = 0 /\ pk_valid_until v <= as_timestamp now.
+  Proof.
+    intros now dbf dbs fs reqs c k o Hc Hk.
+    destruct (asked_spec now dbf dbs fs reqs c k Hc Hk) as [fromdb [H1 [H2 [H3 H4]]]].
+    eexists; exists fromdb. split; [exact H1|]. split; [exact H2|]. split; [exact H3|].
+    intros v Hin. apply H4 in Hin. unfold db_final, public_key_not_expired in Hin.
+    apply orb_false_iff in Hin. destruct Hin as [A B].
+    apply negb_false_iff in A. apply Z.eqb_eq in A. apply Z.ltb_ge in B. auto.
+  Qed.
+
+  Lemma thm_verify_jsons_complete_database : forall now dbf dbs fs reqs rs i r kid rec kr fromdb,
+    let o := verify_jsons now dbf dbs fs reqs in
+    o_results o = Some rs -> nth_error reqs i = Some r ->
+    (exists ids, kids_of (rq_server r) (rq_msg r) = Some ids /\ In kid ids) -> supported kid = true ->
+    o_dbcall o = Some kr -> dbf kr = Some fromdb -> NoDup (map fst fromdb) ->
+    In ((rq_server r, kid), rec) fromdb ->
+    (pk_expired rec <> 0 \/ as_timestamp now < pk_valid_until rec) ->
+    was_valid_at now rec (rq_at r) (rq_rule r) = true ->
+    vj (rq_server r) kid (pk_key rec) (rq_msg r) = true ->
+    nth_error rs i = Some ROk.
+  Proof.
+    intros now dbf dbs fs reqs rs i r kid rec kr fromdb o HR Hr Hk Hs HD HF ND Hin Hfin W V.
+    destruct (thm_database_key_inside_validity_is_used now dbf dbs fs reqs kr fromdb _ _ HD HF ND Hin Hfin) as [F _].
+    eapply thm_verify_jsons_complete; eauto.
+  Qed.
+
+  Lemma thm_verify_jsons_complete_fetcher : forall now dbf dbs fs reqs rs i r kid rec c ans,
+    let o := verify_jsons now dbf dbs fs reqs in
+    o_results o = Some rs -> nth_error reqs i = Some r ->
+    (exists ids, kids_of (rq_server r) (rq_msg r) = Some ids /\ In kid ids) -> supported kid = true ->
+    In c (o_calls o) -> mhas (rq_server r, kid) (c_asked c) = true ->
+    c_answer c = Some ans -> NoDup (map fst ans) -> In ((rq_server r, kid), rec) ans ->
+    was_valid_at now rec (rq_at r) (rq_rule r) = true ->
+    vj (rq_server r) kid (pk_key rec) (rq_msg r) = true ->
+    nth_error rs i = Some ROk.
+  Proof.
+    intros now dbf dbs fs reqs rs i r kid rec c ans o HR Hr Hk Hs Hc Hask Ha ND Hin W V.
+    destruct (stored_spec now dbf dbs fs reqs c ans _ _ Hc Ha ND Hin Hask) as [_ F].
+    eapply thm_verify_jsons_complete; eauto.
+  Qed.
+
 End RingProofs.
